@@ -62,7 +62,7 @@ func checkC17(c *Ctx) Meta {
 	c.Rule("C17-INTR", "every blocking channel operation in a goroutine that a waitStop waits for has an arm on a cancellation channel (so that stop returns promptly)", 7)
 	c.Rule("C17-BLOCK", "no blocking operation while the superior's task lock or collector lock is held unless whoever unblocks it never needs that lock", 1)
 	c.Rule("C17-PAIR", "every AddTask is paired with RemoveTask of the same task id on all exits of the caller", 3)
-	c.Rule("C17-ROUTE", "a report is sent on the channel looked up by its own task id; CollectorMsg carries the reporting collector's id; Send addresses only the target collector; Broadcast iterates the subscribed collectors", 4)
+	c.Rule("C17-ROUTE", "a report is sent on the channel looked up by its own task id; CollectorMsg carries the reporting collector's id; Send addresses only the target collector; Broadcast iterates the subscribed collectors; a late subscriber gets the current task replayed to itself only", 6)
 
 	fns := fractalFuncs(c)
 	if len(fns) < 100 {
@@ -710,6 +710,43 @@ func checkRouting(c *Ctx) {
 			c.OK(rule, key, c.Pos(f.Pos()), "ranges over base.collectors")
 		} else {
 			c.Bad(rule, key, c.Pos(f.Pos()), "Broadcast does not iterate the subscribed collectors")
+		}
+	}
+	// a late subscriber gets the current task replayed to itself only
+	for _, name := range []string{"(*LocalSuperior).Subscribe", "(*RemoteSuperior).Subscribe"} {
+		f := c.MustFn(rule, "fractal", name)
+		if f == nil {
+			continue
+		}
+		key := strings.NewReplacer("(", "", "*", "", ")", "").Replace(name) + ":replay-only-to-the-new-subscriber"
+		bc := 0
+		okSend := false
+		allInstrs(f, func(in ssa.Instruction) {
+			cl, ok := in.(*ssa.Call)
+			if !ok {
+				return
+			}
+			if callName(cl) == "Broadcast" {
+				bc++
+			}
+			if callName(cl) == "Send" {
+				args := callArgs(cl)
+				if len(args) >= 2 {
+					for x := range backSlice(args[1]).vals {
+						if idc, isC := x.(*ssa.Call); isC && idc.Call.IsInvoke() && idc.Call.Method.Name() == "ID" && backSlice(idc.Call.Value).hasParam(f, "c") {
+							okSend = true
+						}
+					}
+				}
+			}
+		})
+		switch {
+		case bc > 0:
+			c.Bad(rule, key, c.Pos(f.Pos()), "subscribing a collector re-broadcasts the current task to every collector already subscribed: each of them receives the task a second time and restarts its lookup")
+		case !okSend:
+			c.Bad(rule, key, c.Pos(f.Pos()), "the current task is not replayed to the subscribing collector (Send(ctx, c.ID(), task))")
+		default:
+			c.OK(rule, key, c.Pos(f.Pos()), "Send(ctx, c.ID(), latestTask): only the new subscriber")
 		}
 	}
 	_ = token.ADD
